@@ -65,6 +65,42 @@ fn with_blame(b: Option<&'static str>, mut v: Vec<&'static str>) -> Vec<&'static
     }
     v
 }
+/// The list-taking entry points accept any `IntoIterator`: feed the same items through iterators of
+/// different kinds (exact size hint, lower bound 0, no bounds at all, chained halves). The kind is a
+/// function of the operation line, so a replay feeds the same kind.
+pub fn feed<T: Copy + 'static>(v: Vec<T>, kind: u64) -> Box<dyn Iterator<Item = T>> {
+    match kind % 5 {
+        0 => Box::new(v.into_iter()),
+        1 => Box::new(v.into_iter().filter(|_| true)),
+        2 => {
+            let mut i = 0;
+            Box::new(std::iter::from_fn(move || {
+                i += 1;
+                v.get(i - 1).copied()
+            }))
+        }
+        3 => {
+            let b = v[v.len() / 2..].to_vec();
+            let a = v[..v.len() / 2].to_vec();
+            Box::new(a.into_iter().chain(b.into_iter()))
+        }
+        _ => Box::new(v.into_iter().map(|x| vec![x]).flat_map(|x| x.into_iter())),
+    }
+}
+
+/// value of variable `v` under the sampled assignment `e`: bit v-1 for the first 64 variables, a mix of
+/// (e, v) beyond (so that any variable number up to 2^32-1 has a value under every sample)
+pub fn abit(e: u64, v: u32) -> bool {
+    if v >= 1 && v <= 64 {
+        (e >> (v - 1)) & 1 == 1
+    } else {
+        let mut z = e ^ (v as u64).wrapping_mul(0x9E37_79B9_7F4A_7C15);
+        z = (z ^ (z >> 30)).wrapping_mul(0xBF58_476D_1CE4_E5B9);
+        z = (z ^ (z >> 27)).wrapping_mul(0x94D0_49BB_1331_11EB);
+        (z ^ (z >> 31)) & 1 == 1
+    }
+}
+
 /// the property that states what this operation must produce
 pub fn op_property(op: &str) -> Option<&'static str> {
     Some(match op {
@@ -477,10 +513,15 @@ impl Exec {
 
     /// value of the diagram below `r` under the assignment `e` (bit v-1 = variable v)
     pub fn eval_at(&self, r: Ref, e: u64) -> Result<bool, String> {
+        self.eval_with(r, e, &[])
+    }
+
+    /// the same, with some variables overridden
+    pub fn eval_with(&self, r: Ref, e: u64, over: &[(u32, bool)]) -> Result<bool, String> {
         let st = self.bdd().storage();
         let mut cur = r;
         let mut neg = false;
-        for _ in 0..200 {
+        for _ in 0..100_000 {
             neg ^= cur.is_negated();
             let i = cur.index() as usize;
             if i == 1 {
@@ -490,19 +531,20 @@ impl Exec {
                 return Err(format!("edge to cell {} which is not stored", i));
             }
             let n = st.cell_value(i);
-            if n.variable > 64 {
-                return Err("novalue".into()); // beyond the sampled assignments: no verdict
-            }
             if n.variable == 0 {
                 return Err(format!("cell {} has variable 0", i));
             }
-            cur = if (e >> (n.variable - 1)) & 1 == 1 { n.high } else { n.low };
+            let val = match over.iter().find(|o| o.0 == n.variable) {
+                Some(o) => o.1,
+                None => abit(e, n.variable),
+            };
+            cur = if val { n.high } else { n.low };
         }
-        Err("diagram deeper than 200".into())
+        Err("diagram deeper than 100000".into())
     }
 
     fn spec_at(&self, sp: &Spec, e: u64) -> Result<Option<bool>, String> {
-        let bit = |v: u32| v >= 1 && v <= 64 && (e >> (v - 1)) & 1 == 1;
+        let bit = |v: u32| v >= 1 && abit(e, v);
         Ok(Some(match sp {
             Spec::Var(v) => bit(*v),
             Spec::Node(v, lo, hi) => {
@@ -546,27 +588,10 @@ impl Exec {
                 }
                 acc
             }
-            Spec::Fix(f, fixes) => {
-                let mut e2 = e;
-                for &(v, b) in fixes {
-                    if v >= 1 && v <= 64 {
-                        e2 = if b { e2 | (1 << (v - 1)) } else { e2 & !(1 << (v - 1)) };
-                    }
-                }
-                self.eval_at(*f, e2)?
-            }
+            Spec::Fix(f, fixes) => self.eval_with(*f, e, fixes)?,
             Spec::Compose(f, v, g) => {
                 let gv = self.eval_at(*g, e)?;
-                let e2 = if *v >= 1 && *v <= 64 {
-                    if gv {
-                        e | (1 << (v - 1))
-                    } else {
-                        e & !(1 << (v - 1))
-                    }
-                } else {
-                    e
-                };
-                self.eval_at(*f, e2)?
+                self.eval_with(*f, e, &[(*v, gv)])?
             }
             Spec::Care(f, g) => {
                 if self.eval_at(*g, e)? {
@@ -1229,7 +1254,8 @@ impl Exec {
                     Some(acc)
                 });
                 self.pending_spec = Some(Spec::Many(is_and, rs.clone()));
-                self.produce(&["C03"], e, |m| if is_and { m.apply_and_many(rs) } else { m.apply_or_many(rs) })
+                let kind = fnv1a(&toks.join(" "));
+                self.produce(&["C03"], e, |m| if is_and { m.apply_and_many(feed(rs, kind)) } else { m.apply_or_many(feed(rs, kind)) })
             }
             "cube" | "clause" => {
                 let lits = match Self::lits(&toks[1..]) {
@@ -1250,7 +1276,8 @@ impl Exec {
                 if distinct {
                     self.pending_spec = Some(Spec::Cube(is_cube, lits.clone()));
                 }
-                self.produce(&["C15"], e, |m| if is_cube { m.cube(lits.clone()) } else { m.clause(lits.clone()) })
+                let kind = fnv1a(&toks.join(" "));
+                self.produce(&["C15"], e, |m| if is_cube { m.cube(feed(lits.clone(), kind)) } else { m.clause(feed(lits.clone(), kind)) })
             }
             "subst" => {
                 let f = hh!(toks[1]);
@@ -1649,7 +1676,8 @@ impl Exec {
                     idx.push(hh!(t));
                 }
                 let rs: Vec<Ref> = idx.iter().map(|&i| self.env[i]).collect();
-                let r = catch_unwind(AssertUnwindSafe(|| self.bdd().descendants(rs.clone())));
+                let kind = fnv1a(&toks.join(" "));
+                let r = catch_unwind(AssertUnwindSafe(|| self.bdd().descendants(feed(rs.clone(), kind))));
                 match r {
                     Ok(set) => {
                         let mine = self.reach(&rs);
@@ -1971,6 +1999,76 @@ impl Exec {
                 match got {
                     Some(v) => format!("some {}", v),
                     None => "none".into(),
+                }
+            }
+            "c.rep" => {
+                // `c.rep insert a b v n` / `c.rep get a b n` / `c.rep clear n`: the same call n times
+                match toks[1] {
+                    "insert" => {
+                        let k: (u64, u64) = (toks[2].parse().unwrap(), toks[3].parse().unwrap());
+                        let v: u64 = toks[4].parse().unwrap();
+                        let n: u64 = toks[5].parse().unwrap();
+                        for i in 0..n {
+                            self.cache.insert(std::hint::black_box(k), std::hint::black_box(v));
+                            if i & 0xFF_FFFF == 0 {
+                                self.beacon.started_ms.store(now_ms(), Ordering::SeqCst); // still making progress
+                            }
+                        }
+                        if n > 0 {
+                            let slot = (pairing2(k.0, k.1) & (self.cache.num_slots() as u64 - 1)) as usize;
+                            self.cache_shadow.insert(slot, (k, v));
+                        }
+                        "ok".into()
+                    }
+                    "get" => {
+                        let k: (u64, u64) = (toks[2].parse().unwrap(), toks[3].parse().unwrap());
+                        let n: u64 = toks[4].parse().unwrap();
+                        if n == 0 {
+                            return "bad-op".into();
+                        }
+                        let slot = (pairing2(k.0, k.1) & (self.cache.num_slots() as u64 - 1)) as usize;
+                        let want = match self.cache_shadow.get(&slot) {
+                            Some((k2, v)) if *k2 == k => Some(*v),
+                            _ => None,
+                        };
+                        let mut got = None;
+                        let mut differs = false;
+                        for i in 0..n {
+                            got = self.cache.get(std::hint::black_box(&k)).copied();
+                            differs |= got != want;
+                            if i & 0xFF_FFFF == 0 {
+                                self.beacon.started_ms.store(now_ms(), Ordering::SeqCst);
+                            }
+                        }
+                        self.cache_lookups += n as usize;
+                        if differs {
+                            self.fail(&["C18"], format!("one of {} repeated get({:?}) differed from {:?}", n, k, want));
+                        }
+                        if self.cache.hits() + self.cache.misses() != self.cache_lookups || self.cache.faults() > self.cache.misses() {
+                            self.fail(&["C18"], format!("statistics: hits {} misses {} faults {} after {} lookups", self.cache.hits(), self.cache.misses(), self.cache.faults(), self.cache_lookups));
+                        }
+                        match got {
+                            Some(v) => format!("some {}", v),
+                            None => "none".into(),
+                        }
+                    }
+                    "clear" => {
+                        let n: u64 = toks[2].parse().unwrap();
+                        for i in 0..n {
+                            std::hint::black_box(&mut self.cache).clear();
+                            if i & 0xFF_FFFF == 0 {
+                                self.beacon.started_ms.store(now_ms(), Ordering::SeqCst);
+                            }
+                        }
+                        if n > 0 {
+                            self.cache_shadow.clear();
+                            if self.cache.entries().count() != 0 {
+                                self.fail(&["C18"], "clear left an entry".into());
+                            }
+                        }
+                        "ok".into()
+                    }
+                    _ => "bad-op".into(),
                 }
             }
             "c.clear" => {
